@@ -154,11 +154,13 @@ class C04(PropertyCheck):
         "distinct = distinct case dict"
     )
     exhaustive_note = {
-        "quick": "every ordered list of 1..2 objects over {rectangular, Delaunay, function list} crossed with every "
-                 "kernel shape in {1,3,5}^2 (non-negative and signed) on a fixed two-component mask; every ordered "
-                 "list of 3 objects on a (3,5)/(5,3) signed kernel",
-        "thorough": "every ordered list of 1..3 objects over {rectangular, Delaunay, function list} crossed with every "
-                    "kernel shape in {1,3,5}^2, non-negative and signed, on two fixed masks",
+        "quick": "structural space enumerated completely (values inside each structural case are seeded-random): "
+                 "every ordered list of 1..2 objects over {rectangular, Delaunay, function list} x every kernel shape "
+                 "in {1,3,5}^2 except (1,5),(5,1) x {non-negative, signed} on a fixed two-component mask; every "
+                 "ordered list of 3 objects on (3,5)/(5,3) signed kernels",
+        "thorough": "structural space enumerated completely (values seeded-random): every ordered list of 1..3 objects "
+                    "over {rectangular, Delaunay, function list} x every kernel shape in {1,3,5}^2 x {non-negative, "
+                    "signed} on two fixed masks",
     }
     trusted_extra = [
         "numpy.linalg.solve (contract: exact solution; checked per case against the model's exact rational solve "
@@ -256,7 +258,7 @@ class C04(PropertyCheck):
         lists3 = list(itertools.product(kinds, repeat=3))
         variants = (0,) if tier == "quick" else (0, 1)
         for variant in variants:
-            for kshape in KERNEL_SHAPES:
+            for kshape in (KERNEL_SHAPES[:7] if tier == "quick" else KERNEL_SHAPES):
                 for signed in (False, True):
                     m = self._fixed_mask(kshape, variant)
                     n = sum(1 for r in m for b in r if not b)
